@@ -282,22 +282,26 @@ Theorem rs_any_subset_same_data :
 Proof. exact rs_any_subset_same_data_lemma. Qed.
 Print Assumptions rs_any_subset_same_data.
 
-(* [FULL] wf_read is an invariant of the model states built by the wire ops 10 (packTracts), 11 (packChunks stripes) and
-   15 (committed hosts): the predicate built holds of the state op 10 builds, is preserved by ops 10, 11 and 15, and in
-   a built state whose tracts fit the target every tract located by find_in_stripes satisfies wf_read, in particular
-   its extent has the length of the tract and lies in a layout accepted by checkTractSpec *)
+(* [FULL] wf_read is an invariant of the model states built by the wire ops 10 (packTracts), 11 (packChunks stripes,
+   kept only if checkTractSpec accepts every layout, which is where the code refuses a tract that does not fit the
+   piece), 15 (committed hosts) and 40 (hosts replaced by reconstructChunk, which keeps the number of hosts): the
+   predicate built holds of the state op 10 builds, is preserved by ops 10, 11, 15 and 40, and in a built state every
+   tract located by find_in_stripes satisfies wf_read, in particular its extent has the length of the tract and lies
+   in a layout accepted by checkTractSpec, with no side condition on tract lengths *)
 Theorem wf_read_invariant :
   (forall n m tg sl trs, is_class n m = true -> built (st_pack n m tg sl trs)) /\
   (forall s op, built s ->
-     (exists r, op = 10%Z :: r) \/ (exists r, op = 11%Z :: r) \/ (exists r, op = 15%Z :: r) ->
+     (exists r, op = 10%Z :: r) \/ (exists r, op = 11%Z :: r) \/ (exists r, op = 15%Z :: r) \/ (exists r, op = 40%Z :: r) ->
      built (fst (step s op))) /\
+  (forall n m hosts bad newids p, reconstruct_plan n m hosts bad newids = Some p -> length (p_hosts p) = length hosts) /\
   (forall s t k j e,
      built s ->
-     Forall (fun tr => (padded (t_len tr) <= s_target s)%N) (s_tracts s) ->
      find_in_stripes t (s_stripes s) 0 = Some (k, j, e) ->
      length (nth k (s_hosts s) []) = s_n s + s_m s ->
      wf_read s k j e (nth t (s_tracts s) dummy_tract)).
-Proof. split; [exact built_pack | split; [exact built_preserved_by_ops | exact built_wf_read]]. Qed.
+Proof.
+  split; [exact built_pack | split; [exact built_preserved_by_ops | split; [exact plan_hosts_len | exact built_wf_read]]].
+Qed.
 Print Assumptions wf_read_invariant.
 
 (* [FULL] rs_readat_equals_replicated_degraded, current code: for every blob, offset and length, including ranges over
@@ -312,12 +316,11 @@ Theorem rs_readat_equals_replicated_degraded :
 Proof. exact read_at_degraded_eq_lemma. Qed.
 Print Assumptions rs_readat_equals_replicated_degraded.
 
-(* [FULL] the same without the wf_read hypothesis, over the model states built by ops 10, 11 and 15: tracts fit the
-   target, every stripe has its n+m hosts recorded and at most m of them unavailable *)
+(* [FULL] the same without the wf_read hypothesis and without any side condition on tract lengths, over the model states
+   built by ops 10, 11, 15 and 40: every stripe has its n+m hosts recorded and at most m of them unavailable *)
 Theorem rs_readat_equals_replicated_degraded_built :
   forall s blob off len blank fail,
     built s ->
-    Forall (fun tr => (padded (t_len tr) <= s_target s)%N) (s_tracts s) ->
     (forall k, k < length (s_stripes s) ->
        length (nth k (s_hosts s) []) = s_n s + s_m s /\ down_count s k blank fail <= s_m s) ->
     read_at true s true blank fail blob off len = read_at true s false [] [] blob off len.
@@ -336,3 +339,40 @@ Theorem readat_fail_closed :
     (fst (fold_results (pre ++ r :: post) pad acc) <= acc + sum_wanted pre)%N.
 Proof. exact fold_results_fail_closed_lemma. Qed.
 Print Assumptions readat_fail_closed.
+
+(* [FULL] rs_readat_fail_closed_blob, current code: for any blob, offset and length, if some tract of the consulted range
+   needs bytes (its in-tract offset lies inside it) from a stripe with MORE than m unavailable holders, its direct
+   piece among them, then Blob.ReadAt returns the error class, its byte count does not exceed what was requested
+   from the tracts before that one nor the replicated read's count, and the bytes it returns are exactly the
+   corresponding prefix of what the replicated blob returns, never different bytes *)
+Theorem rs_readat_fail_closed_blob :
+  forall s blob off len blank fail i t o w k j e,
+    blob_ok s blob ->
+    nth_error (consulted blob off len) i = Some (t, (o, w)) ->
+    find_in_stripes t (s_stripes s) O = Some (k, j, e) ->
+    down blank fail (nth j (nth k (s_hosts s) []) 0%N) = true ->
+    s_m s < down_count s k blank fail ->
+    (o < t_len (nth t (s_tracts s) dummy_tract))%N ->
+    let R := read_at true s true blank fail blob off len in
+    let P := read_at true s false [] [] blob off len in
+    snd (fst R) = 2%N /\ (fst (fst R) <= req_before blob off len i)%N /\
+    (fst (fst R) <= fst (fst P))%N /\ snd R = firstn (N.to_nat (fst (fst R))) (snd P).
+Proof. exact read_at_fail_closed_blob_lemma. Qed.
+Print Assumptions rs_readat_fail_closed_blob.
+
+(* [FULL] rs_readat_exact_or_fail_closed, the dichotomy, current code: for EVERY blob whose packed tracts are well
+   placed, every offset and length, and EVERY set of unavailable holders, failing or without address, with no bound
+   on their number, Blob.ReadAt through the erasure-coded locations either returns exactly the count, error class
+   and bytes of the replicated blob, or returns the error class with a byte count not above the replicated one and
+   bytes that are a prefix of the replicated blob's bytes. By rs_readat_equals_replicated_degraded the first case holds
+   whenever every stripe has at most m unavailable holders, by rs_readat_fail_closed_blob the second whenever a needed
+   stripe has more *)
+Theorem rs_readat_exact_or_fail_closed :
+  forall s blob off len blank fail,
+    blob_ok s blob ->
+    let R := read_at true s true blank fail blob off len in
+    let P := read_at true s false [] [] blob off len in
+    R = P \/
+    (snd (fst R) = 2%N /\ (fst (fst R) <= fst (fst P))%N /\ snd R = firstn (N.to_nat (fst (fst R))) (snd P)).
+Proof. exact read_at_exact_or_fail_closed_lemma. Qed.
+Print Assumptions rs_readat_exact_or_fail_closed.
